@@ -52,8 +52,11 @@ def rule_rec(ctx, f):
         ctx.lost("C07-REC", "PageTree::page")
     else:
         cs = [(bi, t) for bi, t in F.calls(e) if F.callee_name(t) == b["id"]]
-        ok = bool(cs) and all(F.const_int(t["args"][3]) is not None and 1 <= F.const_int(t["args"][3]) <= 64 for bi, t in cs)
-        ctx.check(ok, "C07-REC", "PageTree::page#budget", "the public entry does not start the descent with a small constant budget", e["span"], detail="page_limited(.., 16)")
+        # large enough for the trees the property names ("at least a dozen levels deep": 12 levels of /Pages nodes need a budget of 12), small
+        # enough to bound the stack
+        ok = bool(cs) and all(F.const_int(t["args"][3]) is not None and 12 <= F.const_int(t["args"][3]) <= 64 for bi, t in cs)
+        ctx.check(ok, "C07-REC", "PageTree::page#budget", "the public entry starts the descent with the budget %s: it has to be a constant between 12 (a dozen levels of "
+                  "/Pages nodes must be walkable) and 64" % [F.const_int(t["args"][3]) for bi, t in cs], e["span"], detail="page_limited(.., 16)")
     return b
 
 
@@ -130,8 +133,13 @@ def rule_position(ctx, f, b):
                         Flow._note_fields(pl, fs)
                     if l is not None:
                         fl.origins(l, fields=fs, passthrough=())
-                    if "count" in fs:
+                    # ... the count of the kid that was just loaded (not this node's own /Count)
+                    base = pl[0] if pl is not None else l
+                    from_kid = base is not None and any(a2[0] == "call" and a2[2] in gets for a2 in fl.origins(base))
+                    if "count" in fs and from_kid:
                         kinds.add("count")
+                    elif "count" in fs:
+                        kinds.add("count of another node")
     # every back edge source is reached from the Ok(get) point only through an increment
     backs = [a for a, h in cfg.back_edges() if h == head]
     start = b["blocks"][gets[0]]["term"]["target"]
